@@ -82,6 +82,9 @@ func (a *statusAn) classOf(v ssa.Value, b *ssa.BasicBlock, nonNilParams bool, de
 	if depth > 12 {
 		return SUnknown
 	}
+	if u := unspill(v); u != v {
+		return a.classOf(u, b, nonNilParams, depth+1)
+	}
 	// dominating  v.OK()  test
 	if b != nil {
 		for _, cd := range pathConds(b) {
@@ -144,8 +147,44 @@ func sameStatusValue(a, b ssa.Value) bool {
 	if a == b {
 		return true
 	}
-	// two loads of the same local variable without an intervening store are not tracked: be conservative
-	return false
+	// two loads of the same local variable (named result / variable captured by a defer) with no store in between
+	la, ok1 := a.(*ssa.UnOp)
+	lb, ok2 := b.(*ssa.UnOp)
+	if !ok1 || !ok2 || la.Op != token.MUL || lb.Op != token.MUL || la.X != lb.X {
+		return false
+	}
+	al, ok := la.X.(*ssa.Alloc)
+	if !ok {
+		return false
+	}
+	first, second := ssa.Instruction(la), ssa.Instruction(lb)
+	if !dominatesInstr(first, second) {
+		first, second = second, first
+		if !dominatesInstr(first, second) {
+			return false
+		}
+	}
+	for _, u := range users(al) {
+		switch st := u.(type) {
+		case *ssa.Store:
+			if st.Addr == ssa.Value(al) && reachesInstr(first, st) && reachesInstr(st, second) {
+				return false
+			}
+		case *ssa.UnOp, *ssa.DebugRef:
+		case *ssa.FieldAddr:
+			// st.Code etc.: field reads are fine, a field store between the loads is a modification
+			for _, fu := range users(st) {
+				if fs, ok := fu.(*ssa.Store); ok && fs.Addr == ssa.Value(st) && reachesInstr(first, fs) && reachesInstr(fs, second) {
+					return false
+				}
+			}
+		case *ssa.MakeClosure:
+			// captured by a deferred closure: it runs at function exit, after both loads
+		default:
+			return false
+		}
+	}
+	return true
 }
 
 func (a *statusAn) globalClass(g *ssa.Global) SClass {
@@ -190,7 +229,45 @@ func (a *statusAn) globalClass(g *ssa.Global) SClass {
 	return cl
 }
 
+// doneContextStatus: call is  X.Status()  on a context-like value, in a block reached through the select case
+// that received from  X.Wait()  - a context whose Wait channel fired is done, its Status is its termination
+// status (cancelled / timeout / closed), never OK.
+func doneContextStatus(call *ssa.Call, b *ssa.BasicBlock) bool {
+	cc := call.Call
+	if !cc.IsInvoke() || cc.Method.Name() != "Status" || b == nil {
+		return false
+	}
+	for _, cd := range pathConds(b) {
+		if !cd.Truth {
+			continue
+		}
+		eq, ok := cd.V.(*ssa.BinOp)
+		if !ok || eq.Op != token.EQL {
+			continue
+		}
+		ex, ok := eq.X.(*ssa.Extract)
+		if !ok || ex.Index != 0 {
+			continue
+		}
+		sel, ok := ex.Tuple.(*ssa.Select)
+		if !ok {
+			continue
+		}
+		k, ok := constInt(eq.Y)
+		if !ok || int(k) >= len(sel.States) || k < 0 {
+			continue
+		}
+		if wc, ok := sel.States[k].Chan.(*ssa.Call); ok && wc.Call.IsInvoke() && wc.Call.Method.Name() == "Wait" && wc.Call.Value == cc.Value {
+			return true
+		}
+	}
+	return false
+}
+
 func (a *statusAn) callClass(call *ssa.Call, idx int, b *ssa.BasicBlock, nonNilParams bool, depth int) SClass {
+	if doneContextStatus(call, call.Block()) {
+		return SNonOK
+	}
 	o := calleeObj(call)
 	if o == nil || o.Pkg() == nil {
 		return SUnknown
